@@ -2,7 +2,7 @@
      kind n (base size tag)*n m (query)*m
    kinds 42/43 (STACK WIN tables, model kind 7): a table entry is start-end:tag@start+len (the model proves that an
    entry is filed under its own record's range, c08_win_sorted_disjoint), a lookup answer is tag@address+size
-   kind 19 (model kind 9): ERR;; when the reader rejects the whole stream
+   kinds 19 / 22 (model kinds 9 / 11): ERR;; when the reader rejects the whole stream; kind 21 is model kind 10
    output: one line  P|OK;start-end:tag,...;g1|g2|...   (each g = tags joined by '+', '-' if none) *)
 let () =
   try
@@ -12,7 +12,7 @@ let () =
         let toks = Array.of_list (split_ws line) in
         let pos = ref 0 in
         let next () = let t = toks.(!pos) in incr pos; t in
-        let kind = (match int_of_string (next ()) with 11 | 12 | 13 | 14 | 15 | 16 -> 1 | 17 -> 2 | 41 -> 4 | 42 | 43 -> 7 | 18 -> 8 | 19 -> 9 | k -> k) |> z_of_int in
+        let kind = (match int_of_string (next ()) with 11 | 12 | 13 | 14 | 15 | 16 -> 1 | 17 -> 2 | 41 -> 4 | 42 | 43 -> 7 | 18 -> 8 | 19 -> 9 | 21 -> 10 | 22 -> 11 | k -> k) |> z_of_int in
         let n = int_of_string (next ()) in
         let ents = List.init n (fun _ ->
           let b = z_of_string (next ()) in
